@@ -462,6 +462,15 @@ def _same(a, b):
     return bool(S(a) == S(b))
 
 
+def _note_write(arr):
+    """a write into an array that a contract marked as protected (the caller's input of an operator): recorded as a failed
+    obligation of the code under contract, wherever the write happens (directly or through a view)"""
+    root = arr.base if (getattr(arr, "base", None) is not None and getattr(arr, "wmap", None) is not None) else arr
+    tag = getattr(root, "_protected", None)
+    if tag:
+        core.side_obligation("no-write-into-the-caller's-array(%s)" % tag, z3.BoolVal(False))
+
+
 def _is_one(a):
     if isinstance(a, int):
         return a == 1
@@ -675,6 +684,7 @@ class SArr:
             self._set_elem(lambda k, old: LF._ite(SymBool(msnap(k).value().re != 0), v, old(k)))
             return
         shape, fmap = _index_map(self.shape, idx)
+        _note_write(self)
         tgt = self
         if self.base is not None and self.wmap is not None:
             inner = self.wmap
@@ -780,6 +790,7 @@ class SArr:
         res = self._binop(o, f)
         if len(res.shape) != len(self.shape) or not all(_same(a, b) for a, b in zip(res.shape, self.shape)):
             raise SValueError("non-broadcastable output operand")
+        _note_write(self)
         snap = res._snapshot()
         if self.base is not None and self.wmap is not None:
             vo = self.__dict__.get("_view_of")
@@ -1952,6 +1963,7 @@ class _Numpy(_NS):
     around = staticmethod(lambda x, decimals=0: _np_round(_scalar(x)))
     linspace = staticmethod(_np_linspace)
     asarray = staticmethod(_np_asarray)
+    ascontiguousarray = staticmethod(lambda a, dtype=None: (a.copy() if isinstance(a, SArr) else _np_asarray(a)))
     array = staticmethod(_np_array)
     clip = staticmethod(_np_clip)
     maximum = staticmethod(_np_maximum)
